@@ -1,5 +1,6 @@
 """C17 - tree operations use node identity only, never user-defined special methods."""
 import collections
+import collections.abc
 import json
 
 from hypothesis import strategies as st
@@ -17,7 +18,7 @@ SPECIALS = ["__eq__", "__ne__", "__lt__", "__le__", "__gt__", "__ge__", "__hash_
 RULE = (
     "cases ('programs') = a generated node class: base in {Node, a NodeMixin class, a slotted LightNodeMixin class}, and for each of the 12 "
     "special methods __eq__ __ne__ __lt__ __le__ __gt__ __ge__ __hash__ __bool__ __len__ __iter__ __contains__ __getitem__ one behaviour in "
-    "{absent, adversarial constant A, adversarial constant B, raising, (for __hash__) unhashable}; a per-node mask saying which nodes of the "
+    "{absent, adversarial constant A, adversarial constant B, raising, (for __hash__) unhashable}; optionally registered as a virtual subclass of collections.abc classes (Mapping, Sequence, Set, ...); a per-node mask saying which nodes of the "
     "universe are instances of the generated class; an initial forest; a history of structural calls (incl. refused ones). The same script runs "
     "on a plain class of the same base and name; every call outcome, every forest snapshot and afterwards every read-only API result "
     "(navigation attributes, util helpers, five iterators with filter/stop/maxlevel, findall/find_by_attr, Walker on all pairs, Resolver "
@@ -105,6 +106,9 @@ def make_classes(case):
         ns["__slots__"] = ()
         plain_ns["__slots__"] = ()
     adv = type("Gen", (base,), ns)
+    for abc_name in case.get("abcs", []):
+        # the generated class declares itself a Mapping / Sequence / Set ... (virtual subclass, as tests/test_special_methods_access.py does)
+        getattr(collections.abc, abc_name).register(adv)
     plain = type("Gen", (PLAIN_BASE.get(case["base"], base),), plain_ns)
     return adv, plain, calls
 
@@ -210,6 +214,7 @@ def check_case(case, acc):
 
 
 BEHAVIOURS = ["A", "B", "raise"]
+ABCS = ["Mapping", "MutableMapping", "Sequence", "MutableSequence", "Set", "Container", "Sized", "Iterable", "Iterator", "Hashable", "Callable", "Collection"]
 FIXED_STATE = [[None, [1, 2, 3]], [0, [4]], [0, []], [0, []], [1, []], [None, []]]
 FIXED_STEPS = [{"op": ["ctor", 2, True]}, {"op": ["ctor", 0, True]}, {"op": ["parent", 5, 2]}, {"op": ["children", 0, [3, 1, 2], "list"]}, {"op": ["parent", 0, 4]}, {"op": ["children", 1, [4, 4], "list"]}, {"op": ["parent", 2, None]}, {"op": ["parent", 2, 0]}, {"op": ["del", 5]}]
 
@@ -234,6 +239,10 @@ def _systematic_cases(index, count):
             k += 1
             if k % count == index:
                 yield {"base": base, "methods": {name: behaviour for name in SPECIALS}, "n": 6, "state": FIXED_STATE, "steps": FIXED_STEPS}
+            for abc_name in ABCS:
+                k += 1
+                if k % count == index:
+                    yield {"base": base, "methods": {name: behaviour for name in SPECIALS}, "abcs": [abc_name], "n": 6, "state": FIXED_STATE, "steps": FIXED_STEPS}
 
 
 @st.composite
@@ -250,6 +259,8 @@ def random_cases(draw):
     for _ in range(draw(st.integers(0, 2))):
         steps.insert(draw(st.integers(0, len(steps))), {"op": ["ctor", draw(st.integers(0, 7)), draw(st.booleans())]})
     case = {"base": base, "methods": methods, "n": hist["n"], "steps": steps}
+    if draw(st.booleans()):
+        case["abcs"] = draw(st.lists(st.sampled_from(ABCS), min_size=1, max_size=3, unique=True))
     if "state" in hist:
         case["state"] = hist["state"]
         case["route"] = hist["route"]
